@@ -476,6 +476,15 @@ def fam_nestf():
             tok("start", "object"), tok("end", "object"), tok("self", "object"), tok("text", d="txt")]
     return dict(name="nestf", recipes=recipes, tokens=toks, wellnested=True)
 
+def fam_foreign():
+    """script and style inside foreign content (svg, math): their bodies stay raw text for the tokenizer and must never be written."""
+    base = [call("NewPolicy"), call("AllowElements", names=["b"])]
+    recipes = [base, base + [call("AllowElements", names=["svg", "math"]), call("AllowElementsContent", names=["script", "style"])],
+               [call("UGCPolicy")], [call("StrictPolicy")]]
+    toks = [tok("start", "svg"), tok("end", "svg"), tok("start", "math"), tok("end", "math"), tok("start", "script"), tok("end", "script"),
+            tok("start", "style"), tok("end", "style"), tok("start", "b"), tok("end", "b"), tok("text", d="BODYTEXT"), tok("text", d="<b>x</b>BODYTAIL")]
+    return dict(name="foreign", recipes=recipes, tokens=toks, wellnested=True)
+
 def fam_nestx():
     """Well-nested documents over raw-text, unsafe, skip-set and pattern elements: how the skip flag, the closing-tag stack and
     the most-recently-started name interact at depth (explored like nestw)."""
@@ -537,7 +546,7 @@ def fam_refine():
     toks += [tok("text", d="t"), tok("comment", d="c"), tok("doctype", d="html")]
     return dict(name="refine", recipes=recipes, tokens=toks)
 
-FAMS = dict(nestf=fam_nestf, policy3=fam_policy3, refine=fam_refine, nesty=fam_nesty, urldup=fam_urldup, nestx=fam_nestx, nestw=fam_nestw, nest=fam_nest, css=fam_css, conc_zero=fam_conc_zero, conc=fam_conc, io=fam_io, policy=fam_policy, ugc=fam_ugc, conf=fam_conf, loop=fam_loop, loopq=fam_loopq, link=fam_link, url=fam_url, forced=fam_forced, allow=fam_allow, style=fam_style)
+FAMS = dict(foreign=fam_foreign, nestf=fam_nestf, policy3=fam_policy3, refine=fam_refine, nesty=fam_nesty, urldup=fam_urldup, nestx=fam_nestx, nestw=fam_nestw, nest=fam_nest, css=fam_css, conc_zero=fam_conc_zero, conc=fam_conc, io=fam_io, policy=fam_policy, ugc=fam_ugc, conf=fam_conf, loop=fam_loop, loopq=fam_loopq, link=fam_link, url=fam_url, forced=fam_forced, allow=fam_allow, style=fam_style)
 
 if __name__ == "__main__":
     here = os.path.dirname(os.path.abspath(__file__))
